@@ -955,7 +955,8 @@ def run(chk):
     res = pool_map(_replay, allb)
     for beh, bad in zip(allb, res):
         chk.impl_traces += 1
-        acts = [{k: v for k, v in s.items() if k != 'exp'} for s in beh]
+        acts = [dict({k: v for k, v in s.items() if k != 'exp'}, **({'now': s['exp']['n']} if s.get('act') == 'tick' else {}))
+                for s in beh]
         nontriv = any(s.get('act') == 'recv' and (s['exp']['l']['calls'] or s['exp']['l']['released']) for s in beh)
         chk.case(json.dumps(acts, sort_keys=True), nontriv)
         if bad:
